@@ -191,6 +191,15 @@ def curated():
                 a(make('lay_u8_%s_a%d' % (t2, al), [P('p', 'u8'), P('p', t2), P('p', ta, al)], 'ae', ['layout']))
     a(make('lay_var_tail', [P('p', 'u32', 4), P('v', 'u32', 4), P('p', 'ch'), P('p', 'u32')], 'none', ['layout']))
     a(make('lay_fx_tail', [P('f', 'u8'), P('p', 'u32'), P('p', 'u16', 2), P('f', 'u16'), P('p', 'u64', 8)], 'none', ['layout']))
+    # two VaryingSize where the count of the second ends at an offset that is NOT a multiple of the alignment known
+    # behind the first payload, and the second payload is aligned above it (byte-sized payloads, so that their trailing
+    # padding cannot compensate a short budget); seeded change C02-aligned-varying-leading-padding-unaligned-offset
+    a(make('lay_vv_cnt_unal8', [P('p', 'u32'), P('v', 'u32'), P('p', 'u16'), P('v', 'u8', 8)], 'none', ['layout']))
+    a(make('lay_vv_cnt_unal4', [P('p', 'u16'), P('v', 'u16'), P('p', 'u8'), P('v', 'by', 4)], 'ae', ['layout']))
+    a(make('lay_vv_cnt_unal16', [P('p', 'u32', 4), P('v', 'f32'), P('p', 'u8'), P('v', 'u8', 16), P('p', 'u8')], 'noned', ['layout']))
+    a(make('lay_vv_cnt_unal8b', [P('p', 'u16'), P('v', 'u32'), P('p', 'u8'), P('p', 'u16'), P('v', 'by', 8)], 'none', ['layout']))
+    a(make('lay_vv_cnt_unal8c', [P('p', 'u64', 8), P('v', 'f64'), P('p', 'u32'), P('v', 'u8', 16)], 'ae', ['layout']))
+    a(make('lay_vv_cnt_unal2', [P('p', 'u8'), P('v', 'u16'), P('p', 'u8'), P('v', 'u8', 2), P('p', 'u8')], 'none', ['layout']))
     # the eight propagation-trait combinations x SOCCC same/derived (C08)
     for bits in range(8):
         pocca, pocma, pocs = bits & 1, (bits >> 1) & 1, (bits >> 2) & 1
